@@ -22,6 +22,9 @@ RULE = ('Pairs (old, new) of configurations with same-typed Buildable roots: new
         '(copy.deepcopy or an independent realisation) the copy becomes canon-equal to new, '
         'in place; diff, new and old unmodified; diff(c, deepcopy(c)) empty. Non-trivial: >=1 '
         'edit applied and >=2 Buildables; distinct = (old sketch, new sketch).')
+RULE_ADDITIONS = (' Added by the rounds of seeded changes (DESIGN 9.7): ' +
+                  'build-diff-raises:positional-argument | TypeError | known unless a small patch emerges; bound classmethods as callables')
+RULE = RULE + RULE_ADDITIONS
 ASSUMPTIONS = [
     "equality of configurations = vf.canon 'cfg-exact' (callables, explicitly set arguments, "
     'tags, sharing)',
